@@ -10,7 +10,7 @@ from contracts import C05
 
 LEVEL = "other"
 MANIFEST_ENTRY = {
-    "text": "Ciphertext transfer with resume, as an inductive invariant with the ciphertext C a ghost array. Helper side (CHKCiphertextFetcher): Inv = 'the incoming file on disk is exactly C[0:have]'. _start_reading sets have to the size of whatever incoming file exists (0 if none) and opens it for append, so Inv holds after any earlier interruption; one _fetch step asks the client for exactly [have, have+min(remaining, 50 KiB)), appends what arrives in order and advances have by its length, so Inv is preserved for every size and every position; it reports 'finished' exactly when have == expected size, and only then is the file renamed for encoding. Client side (RemoteEncryptedUploadable.remote_read_encrypted): for every stream position and every request at or beyond it, the bytes skipped are read with hash_only (so plaintext hashes and the AES-CTR position still advance: C05 HashAndEncrypt, re-run here) and the `length` bytes returned are the encrypted uploadable's next bytes at exactly the requested offset; requests behind the position are refused. Already-present files: when the helper answers without an upload handle, no ciphertext is sent. Cap construction (AssistedUploader._build_verifycap): the verify cap uses the client's own storage index, k, N and size and the helper's UEB hash, and refuses helper results whose k, N, segment size or size differ from the client's.",
+    "text": "Ciphertext transfer with resume, as an inductive invariant with the ciphertext C a ghost array. Helper side (CHKCiphertextFetcher): Inv = 'the incoming file on disk is exactly C[0:have]'. _start_reading sets have to the size of whatever incoming file exists (0 if none) and opens it for append, so Inv holds after any earlier interruption; one _fetch step asks the client for exactly [have, have+min(remaining, 50 KiB)), appends what arrives in order and advances have by its length, so Inv is preserved for every size and every position; it reports 'finished' exactly when have == expected size, and only then is the file renamed for encoding. Client side (RemoteEncryptedUploadable.remote_read_encrypted): for every stream position and every request at or beyond it, the bytes skipped are read with hash_only (so plaintext hashes and the AES-CTR position still advance: C05 HashAndEncrypt, re-run here) and the `length` bytes returned are the encrypted uploadable's next bytes at exactly the requested offset; requests behind the position are refused. One writer per file: Helper.remote_upload_chk gives requests for the same storage index the same single upload helper, also when the second request arrives while the first one's already-in-grid check is still running, and none when the file is already in the grid. Already-present files: when the helper answers without an upload handle, no ciphertext is sent. Cap construction (AssistedUploader._build_verifycap): the verify cap uses the client's own storage index, k, N and size and the helper's UEB hash, and refuses helper results whose k, N, segment size or size differ from the client's.",
     "note": "That the helper's encoder produces the same UEB hash as a direct upload (same key: C05, same parameters: the asserts above, same encoder: C01) is an argument across contracts, not one obligation. The foolscap transport, Helper.remote_upload_chk's bookkeeping of incoming/encoding directories and CHKCheckerAndUEBFetcher are not under contract.",
     "technique": "contract-based deductive verification (pyvc VCs + z3, file model with ghost ciphertext array, Deferred-chain model)",
 }
@@ -298,5 +298,62 @@ class BuildVerifycap(Spec):
         return [("canary", z3.BoolVal(not self._caps))] if out.kind == "return" else []
 
 
+class OneUploadHelperPerFile(Spec):
+    """Helper.remote_upload_chk: requests for the same storage index share ONE upload helper (one writer of the incoming
+    ciphertext file), also when the second request arrives while the first one's already-in-grid check is still running"""
+    file = OF
+    qualname = "Helper.remote_upload_chk"
+    cross_check = 0
+    raises = ()
+    canary_case = {"present": False, "order": "overlap"}
+
+    def inputs(self):
+        return {"present": ChoiceK([False, True]), "order": ChoiceK(["overlap", "sequential"])}
+
+    def all_cases(self):
+        return [{"present": p, "order": o} for p in (False, True) for o in ("overlap", "sequential")]
+
+    def config(self):
+        me = self
+        from pyvc.models_tahoe import DStub
+        o = dict(LOG)
+        o.update({"Helper.log": lambda I, a, kw: 1, "Helper.count": noop, "offloaded.si_b2a": lambda I, a, kw: b"abcdefgh", "uri.si_b2a": lambda I, a, kw: b"abcdefgh", "server.si_b2a": lambda I, a, kw: b"abcdefgh",
+                  "Helper._check_chk": lambda I, a, kw: (me._checks.append(DStub("pending")), me._checks[-1])[1],
+                  "Helper._make_chk_upload_helper": lambda I, a, kw: (me._made.append(stub("upload-helper-%d" % len(me._made))), me._made[-1])[1],
+                  "Helper._add_upload": noop})
+        return {"overrides": o}
+
+    def run(self, I, a):
+        self._checks, self._made = [], []
+        h = SObj(self.module().Helper, {"_active_uploads": {}})
+        si = b"S" * 16
+        found = "HELPER-UPLOAD-RESULTS" if a["present"] else None
+        r1 = I.call_value(self.target(I), [h, si], {})
+        if a["order"] == "sequential":
+            res1, _ = fire_chain(I, self._checks[0], found)
+            r2 = I.call_value(self.target(I), [h, si], {})
+            res2 = r2
+            if len(self._checks) == 2:
+                res2, _ = fire_chain(I, self._checks[1], found)
+        else:
+            r2 = I.call_value(self.target(I), [h, si], {})
+            res1, _ = fire_chain(I, self._checks[0], found)
+            res2 = r2
+            if len(self._checks) == 2:
+                res2, _ = fire_chain(I, self._checks[1], found)
+        return (res1, res2)
+
+    def ensures(self, I, a, out):
+        res1, res2 = out.value
+        if a["present"]:
+            return [("a-file-already-in-the-grid-is-reported-without-an-upload-helper", z3.BoolVal(res1 == ("HELPER-UPLOAD-RESULTS", None) and res2 == ("HELPER-UPLOAD-RESULTS", None) and not self._made))]
+        ok = isinstance(res1, tuple) and isinstance(res2, tuple) and res1[0] is None and res2[0] is None
+        return [("both-requests-are-told-to-upload", z3.BoolVal(ok)),
+                ("both-requests-get-the-same-single-upload-helper", z3.BoolVal(ok and res1[1] is res2[1] and len(self._made) == 1))]
+
+    def canary(self, I, a, out):
+        return [("canary", z3.BoolVal(len(self._made) == 0))] if not a["present"] else []
+
+
 def contracts(tier):
-    return [StartReading(), FetchStep(), RemoteReadEncrypted(), ContactedHelper(), BuildVerifycap(), C05.HashAndEncrypt()]
+    return [StartReading(), FetchStep(), RemoteReadEncrypted(), ContactedHelper(), BuildVerifycap(), OneUploadHelperPerFile(), C05.HashAndEncrypt()]
